@@ -236,6 +236,48 @@ CHECKS = {
                     "obligation) for all inputs; deserialize on every strict prefix of every wire struct is Err by complete Kani "
                     "harnesses; the type-31 decoder is bounded.",
     ),
+    "C15": dict(
+        verus=[dict(unit="search")],
+        kani=[dict(crate="nexrad-data", files=["c15.rs"], host="src/aws/realtime.rs", tag="-aws", harnesses=[
+            dict(name="c15_search_all_shapes_n3", bounded="n = 3, all 10 shapes", what="result == newest populated index (or none), call count bound"),
+            dict(name="c15_search_all_shapes_n4", bounded="n = 4, all 17 shapes", what="same, n = 4"),
+            dict(name="c15_search_all_shapes_n5", bounded="n = 5, all 26 shapes", what="same, n = 5"),
+            dict(name="c15_search_all_shapes_n8", bounded="n = 8, all 65 shapes", tier="thorough", what="same, n = 8"),
+        ])],
+        trusted_base=STD_TRUST + KANI_TRUST + [
+            "R-async: the awaited closure future is immediately ready, so the sequential call chain is the semantics (single task, no shared state inside search)",
+            "R-mono: V := u64 (upload times are a total order; the code is parametric in V: PartialOrd + Clone)",
+            "std contracts: VecDeque::{from, is_empty, pop_front, push_back}",
+        ],
+        not_decided=["that the newest directory is always among the probed ones for every size (direction logic of the rotated "
+                     "search): bounded Kani evidence for n <= 8 only; production size 999 is out of CBMC's reach",
+                     "get_latest_volume's index<->volume mapping and call counter (async glue over reqwest; async fns cannot be stubbed in Kani)"],
+        explanation="search extracted with async/await removed (R-async) and V := u64 (R-mono), statements unchanged: proved for "
+                    "all sizes: every probe in range, no overflow, both loops terminate, and the candidate only ever improves "
+                    "(the result is the best of every candidate considered). The functional result (newest directory found) is "
+                    "bounded: all shapes for n in {3,4,5,8} on the real async fn through a single-future executor.",
+    ),
+    "C16": dict(
+        verus=[dict(unit="chunk_id")],
+        trusted_base=STD_TRUST + [
+            "std fmt/parse/slicing on names are ASSUMED (uninterpreted name_of / seq_of / prefix_of with the round-trip axiom)",
+        ],
+        not_decided=["archive file-name parsing (site / date-time recovery) and totality of the string parsers on arbitrary "
+                     "Unicode: rest on std::str and chrono parsers; neither engine reasons about them (Verus has no byte-level "
+                     "str model, CBMC does not finish on symbolic strings)"],
+        explanation="next_chunk / with_sequence / VolumeIndex extracted verbatim (format! through a shim whose precondition pins the "
+                    "format string): successor arithmetic, type-letter choice, site/volume/prefix preservation, never volume 0 or "
+                    "1000; lemma: successor is +1 modulo 54945 on the 999 x 55 grid, hence one cycle visiting every position once.",
+    ),
+    "C19": dict(
+        verus=[dict(unit="elevation_from_chunk")],
+        trusted_base=STD_TRUST,
+        not_decided=["next-chunk time estimate (chrono arithmetic over DateTime/Duration and the HashMap/VecDeque rolling window): "
+                     "not yet under contract in this revision"],
+        explanation="get_elevation_from_chunk and the half-degree accessor extracted verbatim: result == cut_of(sequence, cuts) for all "
+                    "cut lists and sequences >= 1 (chunk 1 -> none; six chunks per half-degree cut, three otherwise; none beyond the "
+                    "last cut); lemma: the mapping is monotone in the sequence.",
+    ),
 }
 
 NOT_APPLICABLE = {
